@@ -273,6 +273,16 @@ def family_alloc(m, tier, add_bench, open_mod, close_mod):
     # rows that exist without a peak: a timed section that only frees / only shrinks
     add_bench(m, path, 4, "free_only", form="bencher", bencher_style="values_free_only", body="quiet", options=[("sample_count", "3"), ("sample_size", "2")])
     add_bench(m, path, 4, "shrink_only", form="bencher", bencher_style="refs_shrink_only", body="quiet", options=[("sample_count", "2"), ("sample_size", "3"), ("threads", "[1, 2]")])
+    # functions without a Bencher whose output owns an allocation, by every wrapper the macro builds
+    # (plain, foreign ABI, generic, arguments): the output is dropped after the end timestamp
+    add_bench(m, path, 4, "out_plain", body="quiet", ret_alloc=True, options=[("sample_count", "3"), ("sample_size", "2")])
+    add_bench(m, path, 4, "out_extern", body="quiet", ret_alloc=True, extern="C", options=[("sample_count", "3"), ("sample_size", "2")])
+    add_bench(m, path, 4, "out_extern_t2", body="quiet", ret_alloc=True, extern="C", options=[("sample_count", "2"), ("sample_size", "2"), ("threads", "2")])
+    # (one argument / constant / type each: allocation-free bodies are identified by benchmark only)
+    add_bench(m, path, 4, "out_consts", body="quiet", ret_alloc=True, consts=[5], options=[("sample_count", "2"), ("sample_size", "2")])
+    add_bench(m, path, 4, "out_extern_types", body="quiet", ret_alloc=True, extern="C", types=["TA"], options=[("sample_count", "2"), ("sample_size", "2")])
+    add_bench(m, path, 4, "out_args", body="quiet", ret_alloc=True, args="one", options=[("sample_count", "2"), ("sample_size", "2")])
+    add_bench(m, path, 4, "out_extern_args", body="quiet", ret_alloc=True, extern="C", args="one", options=[("sample_count", "2"), ("sample_size", "2")])
     close_mod(m, 0)
 
 
@@ -340,7 +350,23 @@ def family_pairs(m, tier, add_bench, open_mod, close_mod):
     close_mod(m, 0)
 
 
+def family_narrow(m, tier, add_bench, open_mod, close_mod):
+    """Nothing but short names: the invented `t=N` lines are the widest lines of the tree (C20: the name
+    column is sized from the names, the thread-count labels are not among them)."""
+    top = "k"
+    m.families[top] = "narrow"
+    path = open_mod(m, [], 0, top)
+    add_bench(m, path, 4, "r", options=[("threads", "[1, 2]")])
+    add_bench(m, path, 4, "w", options=[("threads", "[2, 16]")])
+    d = open_mod(m, path, 4, "d")
+    add_bench(m, d, 8, "e", args="arr_i32_big", options=[("threads", "[1, 3]")])
+    close_mod(m, 4)
+    add_bench(m, path, 4, "z")
+    close_mod(m, 0)
+
+
 def more_families(m, tier, add_bench, open_mod, close_mod):
+    family_narrow(m, tier, add_bench, open_mod, close_mod)
     family_pairs(m, tier, add_bench, open_mod, close_mod)
     family_alloc(m, tier, add_bench, open_mod, close_mod)
     family_shapes(m, tier, add_bench, open_mod, close_mod)
